@@ -101,6 +101,9 @@ def _gen_lf_ops(rng, n_ops, depth=0):
                         "frac": round(rng.random(), 4)})
         elif r < 0.68 and depth == 0:
             inner = _gen_lf_ops(rng, rng.randint(1, 4), depth=1)
+            if rng.random() < 0.3:
+                # something applied and then undone inside one batch
+                inner = [{"op": "aln", "which": rng.randint(0, 2)}] + inner + [{"op": "aln", "which": "back"}]
             ops.append({"op": "batch", "ops": inner,
                         "raise_at": rng.choice([None, None, 0, 1, 2, 3]), "via": rng.choice(["with", "apply"])})
         elif r < 0.84 and depth == 0:
@@ -314,8 +317,11 @@ def apply_lf_op(ctx: Ctx, op, res: RunResult, in_batch=False):
             lf.set_time_heterogeneity(edge_sets=[dict(edges=edges, is_constant=True, value=_frac_value(op["frac"]))])
         return f"time_het:{op['how']}"
     if name == "aln":
-        ctx.cur_aln = op["which"]
-        lf.set_alignment(ctx.aln_n(op["which"]))
+        which = op["which"]
+        if which == "back":
+            which = getattr(ctx, "batch_start_aln", ctx.cur_aln)
+        ctx.cur_aln = which
+        lf.set_alignment(ctx.aln_n(which))
         return "aln"
     raise ValueError(name)
 
@@ -411,6 +417,7 @@ def run_lf(plan, res: RunResult):
                         kind = apply_lf_op(ctx, op, res) or name
                     elif name == "batch":
                         kind = f"batch-{op['via']}"
+                        ctx.batch_start_aln = ctx.cur_aln
                         if op["via"] == "with":
                             with lf.updates_postponed():
                                 for k, inner in enumerate(op["ops"]):
